@@ -136,6 +136,20 @@ fn run(ctx: &RunCtx) -> Report {
         1 => *item.target().as_bytes(),
         _ => info_hash,
     };
+    // mutable puts with real servers among the storers, 1 in 3 (own random stream): the key already holds an
+    // item with the SAME seq and another value (a second device, a corrected record that did not bump seq),
+    // written and completed a moment ago. An Ok for the new item means some acknowledging node serves the new
+    // item (the read-back below).
+    let mut srng = Rng::new(crate::rng::key(ctx.seed, &[crate::rng::tag("c08-same-seq")]));
+    if !big && kind == 1 && n_real > 0 && srng.chance(1, 3) {
+        let earlier = dht::MutableItem::new(&key, b"an earlier value with the same seq", 4, None);
+        let o = sim.put_mutable(writer, earlier, None);
+        sim.run_ops(&[o], sim.now() + 120 * SEC);
+        // (long enough for every delayed or duplicated copy of the earlier write to have landed: with equal seqs the
+        // last copy to arrive wins at a storing node)
+        sim.run_for(srng.range(4000, 7000) * MS);
+        report.probe("same_seq_other_value_written_before", 1);
+    }
     let mut extra_addrs: BTreeSet<SocketAddrV4> = BTreeSet::new();
     let mut ack_target = 0usize;
     // two further families, drawn from a random stream of their own:
